@@ -2,6 +2,7 @@
 package c17
 
 import (
+	"time"
 	"context"
 	"fmt"
 	"os"
@@ -51,6 +52,16 @@ var validFrags = vlib.FragmentIdx(func(f vlib.Fragment) bool { return f.Class ==
 func genBulk(t *rapid.T, conf vlib.Conf, strict bool) {
 	nsvc := rapid.IntRange(0, 14).Draw(t, "nsvc")
 	var all, gold []string
+	if rapid.IntRange(0, 9).Draw(t, "wide") == 5 && rapid.IntRange(0, 3).Draw(t, "wide-b") == 2 {
+		// a wide tree: hundreds of list entries validated side by side
+		for i, n := 0, rapid.IntRange(400, 520).Draw(t, "nwide"); i < n; i++ {
+			name := fmt.Sprintf("w%d", i)
+			conf["/cons/svc[name="+name+"]/kind"] = "silver"
+			if i%3 == 0 {
+				conf["/cons/svc[name="+name+"]/note"] = "n"
+			}
+		}
+	}
 	for i := 0; i < nsvc; i++ {
 		name := fmt.Sprintf("s%d", rapid.IntRange(0, 19).Draw(t, "svc"))
 		shape := rapid.IntRange(0, 5).Draw(t, "svc-shape")
@@ -228,7 +239,7 @@ func gen(t *rapid.T) *Case {
 
 var prop = vlib.Prop[*Case]{
 	ID: "C17",
-	Rule: "case = optional running configuration + history of 1..5 multi-intent transactions over the constraint subtree (fragments of every constraint class plus bulk content: up to 14 svc entries with / without their mandatory leaf, up to 14 ref entries whose leafrefs and must expressions point into the svc list, groups with min / max-elements), GOMAXPROCS in {1,2,4,16}, 1..3 repeated dry runs per step; the binary is built with the race detector (halt_on_error) in the thorough tier and in one quick run; " +
+	Rule: "case = optional running configuration + history of 1..5 multi-intent transactions over the constraint subtree (fragments of every constraint class plus bulk content: up to 14 svc entries with / without their mandatory leaf, up to 14 ref entries whose leafrefs and must expressions point into the svc list, groups with min / max-elements, now and then 400..520 more svc entries side by side), GOMAXPROCS in {1,2,4,16}, 1..3 repeated dry runs per step; the binary is built with the race detector (halt_on_error) in the thorough tier and in one quick run; " +
 		"oracle = differential: datastore A validates sequentially (DisableConcurrency), datastore B concurrently; after every step the outcome (error / per-intent error set / warning set, compared as sorted sets) of B equals that of A, and every repeated dry run of the same step on B equals B's real answer; a data race reported by the race detector kills the worker and is reported through the case journal; " +
 		"non-trivial = some step validated a tree with at least 8 list entries and produced at least one error or resolved a leafref / must across branches; distinct = distinct cases",
 	Gen:  gen,
@@ -307,6 +318,13 @@ func Exec(c *Case) (nontrivial bool, labels []string, fail *vlib.Failure) {
 		}
 		return h
 	}
+	for _, st := range c.Steps {
+		for _, in := range st {
+			if len(in.Conf) > 250 {
+				vlib.GetStats("C17").Label("wide-tree")
+			}
+		}
+	}
 	if c.Mode == "tree" {
 		return execTree(ctx, c, mk)
 	}
@@ -327,7 +345,12 @@ func Exec(c *Case) (nontrivial bool, labels []string, fail *vlib.Failure) {
 		}
 		txid := fmt.Sprintf("s%d", i)
 		for r := 0; r < c.Repeats; r++ {
-			rsp, err := b.SetRequest(fmt.Sprintf("%s-dry%d", txid, r), reqs(st), nil, true)
+			rsp, err, hung := guarded(func() (*sdcpb.TransactionSetResponse, error) {
+				return b.SetRequest(fmt.Sprintf("%s-dry%d", txid, r), reqs(st), nil, true)
+			})
+			if hung {
+				return true, keys(lab), vlib.Failf("C17:concurrent-validation-does-not-return", "step %d, dry run %d (GOMAXPROCS=%d): the request with concurrent validation has not returned after 90 s", i+1, r+1, c.Procs)
+			}
 			if r == 0 {
 				// keep the first dry run as reference for the others
 			}
@@ -341,7 +364,10 @@ func Exec(c *Case) (nontrivial bool, labels []string, fail *vlib.Failure) {
 			}
 		}
 		rspA, errA := a.SetRequest(txid, reqs(st), nil, false)
-		rspB, errB := b.SetRequest(txid, reqs(st), nil, false)
+		rspB, errB, hung := guarded(func() (*sdcpb.TransactionSetResponse, error) { return b.SetRequest(txid, reqs(st), nil, false) })
+		if hung {
+			return true, keys(lab), vlib.Failf("C17:concurrent-validation-does-not-return", "step %d (GOMAXPROCS=%d): the request with concurrent validation has not returned after 90 s; sequential: %s", i+1, c.Procs, outcomeOf(rspA, errA))
+		}
 		oa, ob := outcomeOf(rspA, errA), outcomeOf(rspB, errB)
 		if !oa.Equal(ob) {
 			return true, keys(lab), vlib.Failf("C17:concurrent-differs-from-sequential", "step %d (GOMAXPROCS=%d): concurrent validation: %s\nsequential validation: %s", i+1, c.Procs, ob, oa)
@@ -434,7 +460,22 @@ func execTree(ctx context.Context, c *Case, mk func(bool) *vlib.HistEnv) (bool, 
 		os.Exit(2)
 	}
 	for r := 0; r < c.Repeats+1; r++ {
-		got, err := validateTree(ctx, h, st, false, c.LazyIndex)
+		type vres struct {
+			o   outcome
+			err error
+		}
+		ch := make(chan vres, 1)
+		go func() {
+			o, err := validateTree(ctx, h, st, false, c.LazyIndex)
+			ch <- vres{o, err}
+		}()
+		var got outcome
+		select {
+		case r := <-ch:
+			got, err = r.o, r.err
+		case <-time.After(60 * time.Second):
+			return true, keys(lab), vlib.Failf("C17:concurrent-validation-does-not-return:tree", "concurrent validation of the tree (GOMAXPROCS=%d, %d leaves in the step) has not returned after 60 s; the sequential run returned %s", c.Procs, len(st[0].Conf), ref)
+		}
 		if err != nil {
 			fmt.Fprintf(os.Stderr, "HARNESS-ERROR %v\n", err)
 			os.Exit(2)
@@ -453,6 +494,25 @@ func execTree(ctx context.Context, c *Case, mk func(bool) *vlib.HistEnv) (bool, 
 		lab["references-into-running-only-content"] = true
 	}
 	return nt, keys(lab), nil
+}
+
+// guarded runs a request under a watchdog: a validation that never returns is a finding, not a stuck check.
+func guarded(f func() (*sdcpb.TransactionSetResponse, error)) (*sdcpb.TransactionSetResponse, error, bool) {
+	type res struct {
+		r *sdcpb.TransactionSetResponse
+		e error
+	}
+	ch := make(chan res, 1)
+	go func() {
+		r, e := f()
+		ch <- res{r, e}
+	}()
+	select {
+	case x := <-ch:
+		return x.r, x.e, false
+	case <-time.After(90 * time.Second):
+		return nil, nil, true
+	}
 }
 
 // treeDiffClass names what the two outcomes disagree about: a mandatory leaf / must operand that only the
